@@ -488,10 +488,11 @@ func init() {
 		return ex.hash64("xxhash", ex.byteTerms(a[0].(Str).bslice()))
 	})
 	reg("github.com/cespare/xxhash.New", func(ex *Exec, fn *ssa.Function, a []Value) Value {
+		t := ex.P.namedType("github.com/cespare/xxhash", "xxh")
 		c := new(Value)
-		*c = zeroValue(fn.Signature.Results().At(0).Type().(*types.Pointer).Elem())
+		*c = zeroValue(t)
 		ex.env.side[c] = &digestState{kind: "xxhash"}
-		return Ptr{cell: c}
+		return Iface{T: types.NewPointer(t), V: Ptr{cell: c}}
 	})
 	dg := func(ex *Exec, p Value) *digestState {
 		c := p.(Ptr).cell
@@ -589,18 +590,21 @@ func sameTerms(a, b []*term.T) bool {
 	return true
 }
 
-// hash64 models a 64-bit hash: the real function on concrete input, otherwise a
-// fresh value constrained to be functionally consistent and collision-free
-// with respect to all other applications on this path.
+// hash64 models a 64-bit hash: the real function on concrete input, otherwise an
+// abstract token (fresh symbol). Tokens are only meaningful under equality:
+// the interpreter rewrites h_i == h_j into "the hashed byte sequences are
+// equal" (functional consistency + collision freedom, stated assumption).
 func (ex *Exec) hash64(fn string, bs []*term.T) *term.T {
 	if c, ok := allConst(bs); ok {
 		var v uint64
 		switch fn {
 		case "xxhash":
 			v = xxhash.Sum64(c)
+		default:
+			v = xxhash.Sum64(append([]byte(fn), c...))
 		}
 		r := u64(v)
-		ex.recordHash(fn, bs, r)
+		ex.env.hashApps = append(ex.env.hashApps, hashApp{fn: fn, bytes: bs, res: r})
 		return r
 	}
 	for _, h := range ex.env.hashApps {
@@ -609,30 +613,43 @@ func (ex *Exec) hash64(fn string, bs []*term.T) *term.T {
 		}
 	}
 	r := term.Sym(ex.freshName("h."+fn), 64)
-	ex.recordHash(fn, bs, r)
+	ex.env.hashApps = append(ex.env.hashApps, hashApp{fn: fn, bytes: bs, res: r})
 	return r
 }
 
-func (ex *Exec) recordHash(fn string, bs []*term.T, r *term.T) {
-	for _, h := range ex.env.hashApps {
-		if h.fn != fn {
-			continue
-		}
-		if h.res.IsConst() && r.IsConst() {
-			continue
-		}
-		var argsEq *term.T
-		if len(h.bytes) != len(bs) {
-			argsEq = term.False
-		} else {
-			argsEq = term.True
-			for i := range bs {
-				argsEq = term.BAnd(argsEq, term.Eq(h.bytes[i], bs[i]))
+// hashEq rewrites an equality between hash results into equality of the hashed inputs.
+func (ex *Exec) hashEq(a, b *term.T) *term.T {
+	if a.W != 64 || len(ex.env.hashApps) == 0 {
+		return nil
+	}
+	isTok := func(t *term.T) bool { return t.Op == term.OSym && strings.HasPrefix(t.Name, "h.") }
+	if !isTok(a) && !isTok(b) {
+		return nil
+	}
+	find := func(t *term.T) *hashApp {
+		for i := range ex.env.hashApps {
+			h := &ex.env.hashApps[i]
+			if h.res == t || (t.IsConst() && h.res.IsConst() && h.res.C == t.C) || (t.Op == term.OSym && h.res.Op == term.OSym && h.res.Name == t.Name) {
+				return h
 			}
 		}
-		ex.Assume(term.Eq(argsEq, term.Eq(h.res, r)))
+		return nil
 	}
-	ex.env.hashApps = append(ex.env.hashApps, hashApp{fn: fn, bytes: bs, res: r})
+	ha, hb := find(a), find(b)
+	if ha == nil || hb == nil {
+		if ha != nil && b.IsConst() || hb != nil && a.IsConst() {
+			return term.False // a hash token never equals an unrelated constant (collision-free assumption)
+		}
+		return nil
+	}
+	if ha.fn != hb.fn || len(ha.bytes) != len(hb.bytes) {
+		return term.False
+	}
+	eq := term.True
+	for i := range ha.bytes {
+		eq = term.BAnd(eq, term.Eq(ha.bytes[i], hb.bytes[i]))
+	}
+	return eq
 }
 
 // hashBytes models an n-byte digest ([n]byte value).
